@@ -1015,6 +1015,29 @@ def task_reservation_scope():
                 return True
         interp.policy = PP()
         interp.policy.interp = interp
+        # the syntactic parent of a reference: when the reference is the target of an assignment expression, the walk must start at that
+        # expression (it sits in the comprehension, the target itself is bound further out)
+        walrus = {}
+
+        def parent_hook(it, f, a, k):
+            node = a[0]
+            if not isinstance(node, Obj):
+                raise Undecided('get_parent of %r' % (node,))
+            if node.id not in walrus:
+                pn = ctx.new_node(set(tag_universe()['names']), name='parent_of_' + ctx.data(node).name)
+                is_target = False
+                if 'NamedExpr' in ctx.data(pn).tags and 'Name' in ctx.data(node).tags and \
+                        ctx.branch(z3.And(ctx.data(pn).tagvar == tag_const('NamedExpr'), ctx.data(node).tagvar == tag_const('Name'),
+                                          z3.Bool('%s_is_the_target_of_its_parent' % ctx.data(node).name))):
+                    it.narrow(pn, {'NamedExpr'})
+                    ctx.data(pn).fields['target'] = node
+                    is_target = True
+                elif 'NamedExpr' in ctx.data(pn).tags and ctx.branch(ctx.data(pn).tagvar == tag_const('NamedExpr')):
+                    it.narrow(pn, {'NamedExpr'})
+                    ctx.data(pn).fields['target'] = ctx.new_node({'Name'}, name='other_target')
+                walrus[node.id] = (pn, is_target)
+            return walrus[node.id][0]
+        interp.hooks['python_minifier.ast_annotation:get_parent'] = parent_hook
         r = interp.call(interp.wrap(rmod.reservation_scope), [N, b], {})
         ok_set = isinstance(r, Obj) and ctx.data(r).kind == 'set'
         ctx.check(name + '/returns-a-set', ok_set, kind='post', detail=repr(r))
@@ -1046,6 +1069,26 @@ def task_reservation_scope():
                 ok = want is not None and want in nadds2[0] and nadds2[0] == nadds[0] | {want} and not new[1]
                 ctx.check(name + '/%s-iteration-adds-the-namespace-above-the-current-node-whatever-its-class' % label, ok, kind='inv.step',
                           detail='node %s: namespace above %r, added %r' % (ctx.data(cur).name, want, new))
+        # the walk for a reference starts at the reference, or at the assignment expression whose target it is
+        firsts = [e for e in its if e[0] == 1]
+        for n, cur, st, _ in firsts:
+            starts = [(rid, pn, tgt) for rid, (pn, tgt) in walrus.items()]
+            tgt_parents = [pn for rid, pn, tgt in starts if tgt]
+            if cur in tgt_parents:
+                ctx.check(name + '/a-walrus-target-is-walked-from-its-assignment-expression', True, kind='inv.init')
+            else:
+                is_tgt = any(tgt and rid == cur.id for rid, pn, tgt in starts) if isinstance(cur, Obj) else False
+                asked = isinstance(cur, Obj) and cur.id in walrus
+                if is_tgt or asked:
+                    ctx.check(name + '/a-walrus-target-is-walked-from-its-assignment-expression', not is_tgt, kind='inv.init',
+                              detail='the walk starts at the target itself: the comprehensions around the assignment expression are not reserved')
+                else:
+                    # the code never looked at what the reference is: it may be the target of an assignment expression inside a comprehension
+                    ghost = z3.Bool('%s_is_the_target_of_an_assignment_expression' % ctx.data(cur).name) if isinstance(cur, Obj) else z3.BoolVal(True)
+                    is_name = ctx.data(cur).tagvar == tag_const('Name') if isinstance(cur, Obj) and 'Name' in ctx.data(cur).tags else z3.BoolVal(False)
+                    ctx.check(name + '/a-walrus-target-is-walked-from-its-assignment-expression', z3.Not(z3.And(ghost, is_name)), kind='inv.init',
+                              detail='the walk starts at the reference without asking whether it is the target of an assignment expression (whose '
+                                     'comprehensions must be reserved too: `[A for A in d if (A := A)]` does not compile)')
         # advance: checked through the recorded value of `node` at the next head (only observable for the arbitrary iteration, n=2 -> 3)
         for k in range(len(its) - 1):
             if its[k][0] == 2 and its[k + 1][0] == 3:
